@@ -7,6 +7,7 @@ import (
 	"context"
 	"encoding/binary"
 	"fmt"
+	"math"
 	"sort"
 	"time"
 
@@ -75,6 +76,11 @@ func TimeTick(t time.Time) int64 { return (t.UnixMilli() - BaseTime.UnixMilli())
 func TicksDuration(n int64) time.Duration {
 	d := time.Duration(n) * tickDuration()
 	if n != 0 && d/time.Duration(n) != tickDuration() {
+		// more ticks than a time.Duration holds: the largest duration there is ("never finalizes").  At every whole tick the
+		// clamped value and the exact one order the same way against the clock, which is all the specification uses.
+		if n > 0 {
+			return time.Duration(math.MaxInt64)
+		}
 		panic("tick count not representable as time.Duration")
 	}
 	return d
